@@ -21,7 +21,7 @@ RULE = ("collection kinds boxed / owned / retrying (+ ref) x containers Vec / Bo
         "distinct = distinct case line; plus 32 nested structures (harness/src/vtree.rs: locks, Poisonable wrappers clean and "
         "poisoned, Vec / Box<[T]> of length 0..3, arrays to 7, tuples to 7, boxed / owned / retrying collections nested in "
         "each other to depth 4) x paths {drop, drop by unwinding, into_inner, into_child, get_mut (where implemented), "
-        "lock-then-into_inner, checked constructor rejecting / accepting an input that owns the structure} x a write at "
+        "lock-then-into_inner, checked constructor rejecting / accepting an input that owns the structure, the by-value iterator of the root consumed completely / after its first member} x a write at "
         "every payload position (through the exclusive scoped call of the root, or through get_mut): the harness prints "
         "the structure as a term of coq/VTree.v, the model is evaluated on that term")
 EXHAUSTIVE = {"quick": True, "thorough": True}
@@ -47,7 +47,10 @@ class VCase:
 
 TPATHS = {"drop": "QDrop", "drop_unwinding": "QDropUnw", "into_inner": "QIntoInner", "into_child": "QIntoChild",
           "get_mut": "QGetMut", "lock_into_inner": "QLockIntoInner", "try_new_reject": "QTryNewReject",
-          "try_new_reject_retry": "QTryNewReject", "try_new_accept": "QTryNewAccept"}
+          "try_new_reject_retry": "QTryNewReject", "try_new_accept": "QTryNewAccept",
+          "into_iter": "QIntoIter", "into_iter_first": "QIntoIterFirst"}
+# the types of the table whose root is a collection over a Vec / array / Box<[T]> (by-value IntoIterator)
+ITER_TYPES = {4, 5, 6, 7, 8, 12, 13, 20, 21, 25, 26, 28, 30}
 # harness/src/vtree.rs `table!`: (implements LockableGetMut, number of payloads as a function of the Vec length)
 TTYPES = {0: (1, lambda n: 1), 1: (1, lambda n: 1), 2: (1, lambda n: 1), 3: (1, lambda n: 1), 4: (1, lambda n: n),
           5: (1, lambda n: n), 6: (0, lambda n: n), 7: (0, lambda n: 5), 8: (1, lambda n: 3), 9: (1, lambda n: 7),
@@ -81,13 +84,15 @@ def gen(tier, rng):
             n = npay(vlen)
             for poison in (False, True):
                 for path in ("drop", "drop_unwinding", "into_inner", "into_child", "get_mut", "lock_into_inner",
-                             "try_new_reject", "try_new_reject_retry", "try_new_accept"):
+                             "try_new_reject", "try_new_reject_retry", "try_new_accept", "into_iter", "into_iter_first"):
                     if path == "get_mut" and not gm:
+                        continue
+                    if path in ("into_iter", "into_iter_first") and ty not in ITER_TYPES:
                         continue
                     wl = [None]
                     if path in ("into_inner", "into_child", "get_mut"):
                         wl += list(range(n))
-                    elif poison and path not in ("drop", "lock_into_inner"):
+                    elif poison and path not in ("drop", "lock_into_inner", "into_iter", "into_iter_first"):
                         continue                      # the flag matters only where results are produced
                     for w in wl:
                         cases.append(TCase(f"t16_{k}", ty, vlen, poison, path, w))
